@@ -78,7 +78,7 @@ def run(pid, tier, seed, replay=None):
         ck.cov["traces_validated_against_impl"] = len(hist) + (200 if tier == "quick" else 1500)
         ck.cov["evaluations"] = total
         ck.cov["distinct_nontrivial"] = len(hist)
-        ck.cov["rule"] = ("operation histories of length 40 over 16 keys (short, 8-char, HIERARCH, reserved short and long, lower-case, empty, blank, '=') and "
+        ck.cov["rule"] = ("operation histories of length 40 over 18 keys (short, 8-char, HIERARCH, reserved short and long, lower-case, empty, blank, '=') and "
                           "16 values (int, double, empty, text, trailing blanks, quote, exactly-fitting and one-too-long for each card kind), "
                           "interleaved with FITS round trips (memory and disk); from TLC simulation and from the driver's seeded generator")
         return ck.finish(exhaustive=False)
